@@ -276,6 +276,31 @@ static void run_list(const vector<string>& tokens, vt::Rng& r, int ctor) {
   delete a;
 }
 
+// ---------------------------------------------------------------- float text sweep
+// one mini history per text: Arguments{"--f=<text>"} then the four float getter forms by name
+static void float_texts_sweep(int shard, int nshards) {
+  static const vector<string> texts = {"0", "-0", "1", "-1", "1.5", "-2.25", ".5", "5.", "+3", "1e5", "1E5", "1e+5", "1e-5", "2.5e3", "123456789", "0.000123",
+      "1e300", "1e-300", "1.7976931348623157e308", "2.2250738585072014e-308", "1e-310", "4.94e-324", "1e-400", "-1e-400", "1e999", "-1e999",
+      "3.4028235e38", "1e39", "1e-46", " 1.5", "\t2", "1.5 ", "1.5x", "x1.5", "1e", "1e+", "e5", ".", "", "-", "+", "--1", "1..5", "1.5.2", "1,5", "inf", "-inf",
+      "infinity", "nan", "NaN", "INF", "0x10", "0x1p4", "1_000", "1e5e5", "12abc", "١٢"};
+  for (size_t i = 0; i < texts.size(); i++) {
+    if ((int)(i % nshards) != shard) continue;
+    vector<string> tokens = {"--f=" + texts[i]};
+    tr.emit("{\"e\":\"Reset\"}");
+    tr.histories++;
+    Arguments a(tokens);
+    vector<string> pos;
+    for (auto& p : a.positional) pos.push_back(p.text);
+    vt::J j;
+    j.str("e", "new").raw("tokens", jlist(tokens)).raw("pos", jlist(pos)).raw("named", dump_named(a, false));
+    tr.emit(j);
+    for (int hasdef = 0; hasdef < 2; hasdef++)
+      for (int dbl = 0; dbl < 2; dbl++) float_getter(a, true, "f", 0, hasdef, dbl);
+    float_getter(a, true, "absent", 0, true, true);
+    float_getter(a, true, "absent", 0, false, true);
+  }
+}
+
 // ---------------------------------------------------------------- integer text sweeps
 template <typename T>
 static void int_batch(const vector<string>& texts, int fmt) {
@@ -363,6 +388,7 @@ int main(int argc, char** argv) {
     int shard = atoi(argv[5]), nshards = atoi(argv[6]);
     tr.emit("{\"e\":\"Reset\"}");
     tr.histories++;
+    float_texts_sweep(shard, nshards);
     // malformed and boundary texts first (some set errno = ERANGE), then the valid sweeps
     all_types(boundary_texts());
     const long CH = 500;
